@@ -137,6 +137,11 @@ def work(name, src, payload):
                                                                                  {'docstr': 'strict'})]
             if cat == 'expr' and path[-1][1] is not None:
                 ops += [('replace', 'f(\n  1,\n  2)[\n 0]', {})]
+                par = follow(FST(src, 'exec'), path[:-1]) if len(path) > 1 else None
+                if par is not None and par.a.__class__.__name__ in ('Delete', 'Tuple', 'List', 'Set') and \
+                        path[-1][0] in ('targets', 'elts'):
+                    # a two-line slice of comma-separated elements: an unenclosed statement needs continuation repair
+                    ops += [('replace', 'zz[1],\nyy', {'one': False})]
             for opt in ops:
                 op, donor = opt[0], opt[1]
                 opts = dict(opts0, **(opt[2] if len(opt) > 2 else {}))
@@ -185,13 +190,33 @@ def work(name, src, payload):
                     distinct.add(('refused', path, op, donor, trivia, str(opt[2:])))
                     continue
                 distinct.add(('ok', path, op, donor, trivia, str(opt[2:])))
+                key = f'{op}@{cat}:{name}:{path}:{donor!r}:trivia={trivia}:{sorted((opt[2] if len(opt) > 2 else {}).items())}'
+                tol = 'docstr' not in opts
                 if c01_violation(root):
-                    continue   # C01's business
+                    # tree and source disagree (C01's business), so the new extent is not reliable; what can still be
+                    # judged soundly: every token/comment outside the OLD extent must survive, in order, somewhere in
+                    # the new text (compared as text: a broken result may not tokenize)
+                    o = sig(outside(old_tokens, loc), doc_tolerant=False)
+                    allowed = [] if trivia == () or loc is None else allowed_comment_loss(lines0, loc)
+                    pos, text, lost = 0, root.src, None
+                    for t in o:
+                        k = text.find(t, pos)
+                        if k < 0:
+                            if t in allowed:
+                                allowed.remove(t)
+                                continue
+                            if '\n' in t:
+                                continue   # multi-line strings may be re-indented
+                            lost = t
+                            break
+                        pos = k + len(t)
+                    if lost is not None:
+                        fail(key + ':lost', f'{op}({donor!r}, trivia={trivia}) at {path}: the token/comment {lost!r} outside '
+                             'the element is gone from the source', src_after=root.src[:300])
+                    continue
                 new_tokens = toks(root.src)
                 if new_tokens is None:
                     continue
-                key = f'{op}@{cat}:{name}:{path}:{donor!r}:trivia={trivia}:{sorted((opt[2] if len(opt) > 2 else {}).items())}'
-                tol = 'docstr' not in opts
                 o = sig(outside(old_tokens, loc), doc_tolerant=tol)
                 n = sig(outside(new_tokens, newloc), doc_tolerant=tol)
                 allowed = [] if trivia == () or loc is None else allowed_comment_loss(lines0, loc)
